@@ -3,10 +3,10 @@
 # confirm /tmp/wtout/<Cxx>/m<k> independently, then keep it as /verif/seeded/<Cxx>-m<k>/
 set -u
 P="$1"; K="$2"; PKG="$3"; RUN="$4"; NEEDS="$5"; shift 5
-SRC="/tmp/wtout/$P/m$K"; DST="/verif/seeded/$P-m$K"
+SRC="${WTOUT:-/tmp/wtout}/$P/m$K"; DST="/verif/seeded/$P-${PFX:-m}$K"
 out="$(/verif/tools/confirm_seeded.sh "$SRC" "$PKG" "$RUN" "$@")"; rc=$?
-echo "$P-m$K: $out"
-[ $rc -eq 0 ] || { echo "$P-m$K NOT CONFIRMED - not kept"; exit 1; }
+echo "$P-${PFX:-m}$K: $out"
+[ $rc -eq 0 ] || { echo "$P-${PFX:-m}$K NOT CONFIRMED - not kept"; exit 1; }
 mkdir -p "$DST"; cp "$SRC/patch.diff" "$SRC"/demo*_test.go "$SRC/notes.md" "$DST/"
 python3 - "$DST" "$P" "$PKG" "$RUN" "$NEEDS" "$out" "$*" <<'PY'
 import json, sys
